@@ -1,1 +1,6 @@
-//! Reference models (DESIGN.md §4 E7).
+//! Reference models (DESIGN.md §4 E7). Independent, deliberately naive definitions.
+pub mod curve;
+pub mod field;
+pub mod poly;
+pub mod poseidon;
+pub mod regex;
